@@ -40,6 +40,8 @@ def run_c02(res, rng):
     cases = corpus_cases('C02') + [D.gen_c02(rng.fork('b%d' % i), 'b%d' % i) for i in range(n)]
     cases += [D.truncation_cases(rng.fork('t%d' % i), 't%d' % i) for i in range(30 if res.tier == 'quick' else 600)]
     cases += [D.gen_c02(rng.fork('big%d' % i), 'big%d' % i, big=True) for i in range(2 if res.tier == 'quick' else 20)]
+    # reassembly buffers growing past 64 KiB (accepted chains of few large / many MTU-sized segments)
+    cases += D.big_chain_cases(rng.fork('chain'), 'chain', res.tier == 'thorough')
     # every truncation of the TECMP samples
     tr = rng.fork('tecmp')
     for j, f in enumerate(D.tecmp_samples(tr)):
@@ -49,7 +51,7 @@ def run_c02(res, rng):
     def proj(c, lines):
         return ['N ' + l.split()[1] for l in lines if l.startswith('N ')] + anomalies(lines)
     correspondence(res, cases, proj, D.judge_c02, 'memory safety / termination of decode')
-    res.cov['rule'] = ('sequences of 1-20 buffers on one decoder: random bytes, 0x00-led buffers, TECMP samples of every kind and CMP frames (valid, inconsistent inner lengths, segment chains), each mutated by truncation, byte corruption, length/type/flag field +-1/0/0xFF, appended bytes; every truncation of sample frames; 64 KiB buffers. '
+    res.cov['rule'] = ('sequences of 1-20 buffers on one decoder: random bytes, 0x00-led buffers, TECMP samples of every kind and CMP frames (valid, inconsistent inner lengths, segment chains), each mutated by truncation, byte corruption, length/type/flag field +-1/0/0xFF, appended bytes; every truncation of sample frames; 64 KiB buffers; accepted segment chains whose total payload is 65519..131070 bytes. '
                        'Each input is copied to an exact-size heap block that is poisoned and freed before results are read; results are re-read after all decoders are destroyed (ASan+UBSan build). non-trivial = distinct buffers of >= 24 bytes')
     res.cov['distinct_nontrivial'] = nontrivial_frames(cases)
     res.cov['input_distribution'] = frame_stats(cases)
@@ -78,8 +80,11 @@ def run_c05(res, rng):
         e = (r.below(65536), r.below(256))
         fr = D.chain_frames(r, e, r.choice([65534, 65535, 65530, 0]), r.range(6, 40))
         cases.append(Case('l%d' % i, [D.feed_line(1, f) for f in fr], dict(frames=fr, eps=[e])))
+    cases += D.big_chain_cases(rng.fork('big'), 'big', res.tier == 'thorough')
+    cases += D.alias_cases(rng.fork('alias'), 'alias', 150 if res.tier == 'quick' else 6000)
+    cases += D.many_endpoint_cases(rng.fork('many'), 'many', res.tier == 'thorough')
     correspondence(res, cases, proj_nk, D.judge_ref, 'reassembly under interleaving')
-    res.cov['rule'] = 'histories = random merges of 1-4 (quick) / 1-8 (thorough) endpoint streams (some sharing a device id), each a sequence of well-formed chains (2-6 segments, sizes 0..77, start counters incl. 65534/65535/0, 1/3 of the segments followed by trailing bytes, later segments with different header fields) and unsegmented frames; plus 20 chains of 6-40 segments across the wrap. non-trivial = distinct frames >= 24 bytes'
+    res.cov['rule'] = 'histories = random merges of 1-4 (quick) / 1-8 (thorough) endpoint streams (some sharing a device id), each a sequence of well-formed chains (2-6 segments, sizes 0..77, start counters incl. 65534/65535/0, 1/3 of the segments followed by trailing bytes, later segments with different header fields) and unsegmented frames; plus 20 chains of 6-40 segments across the wrap; chains whose total payload is 65519/65520/65535/65536/70000/72000/131070 bytes (few large or 47 MTU-sized segments); pairs of endpoints that collide under xor/or/add/truncation foldings of (device, stream) with chains in flight at the same time; 255..513 (thorough: 4097) endpoints with a reassembly pending simultaneously. non-trivial = distinct frames >= 24 bytes'
     res.cov['distinct_nontrivial'] = nontrivial_frames(cases)
     res.cov['input_distribution'] = frame_stats(cases)
     res.cov['samples'] = [sample_case(c) for c in cases[:2]]
@@ -91,8 +96,10 @@ def run_c06(res, rng):
     for i in range(40 if res.tier == 'quick' else 400):
         for pos in range(12):
             cases.append(D.gen_c06(rng.fork('x%d' % i), 'x%d_%d' % (i, pos), exhaustive_pos=pos))
+    # the same with an unfaulted stream of a second (colliding-looking) endpoint interleaved through faults and recovery
+    cases += [D.gen_c06(rng.fork('m%d' % i), 'm%d' % i, second_endpoint=True) for i in range(300 if res.tier == 'quick' else 20000)]
     correspondence(res, cases, proj_nk, D.judge_c06, 'faults never corrupt')
-    res.cov['rule'] = 'spec-built streams of 2-8 messages (half segmented into 2-5 frames) with consecutive counters; 1-3 random faults from {drop, duplicate, swap, corrupt version, corrupt message type}, plus one fault at each of 12 positions of 40 (quick) / 400 (thorough) streams; then two fresh complete messages for the recovery clause. non-trivial = distinct fault histories'
+    res.cov['rule'] = 'spec-built streams of 2-8 messages (half segmented into 2-5 frames) with consecutive counters; 1-3 random faults from {drop, duplicate, swap, corrupt version, corrupt message type}, plus one fault at each of 12 positions of 40 (quick) / 400 (thorough) streams; then two fresh complete messages for the recovery clause; 300 (quick) / 20000 (thorough) histories additionally interleave an unfaulted stream of a second endpoint chosen to collide with the first under xor/or/add/truncation foldings of (device, stream). non-trivial = distinct fault histories'
     res.cov['distinct_nontrivial'] = len(set(tuple(c.lines) for c in cases))
     res.cov['input_distribution'] = frame_stats(cases)
     res.cov['samples'] = [sample_case(c) for c in cases[:2]]
@@ -103,10 +110,13 @@ def run_c17(res, rng):
     for i in range(n):
         r = rng.fork('p%d' % i)
         cases.append(D.gen_history(r, 'p%d' % i, neps=r.range(1, 4), nitems=r.range(2, 7)))
+    cases += D.big_chain_cases(rng.fork('big'), 'big', res.tier == 'thorough')
+    cases += D.alias_cases(rng.fork('alias'), 'alias', 100 if res.tier == 'quick' else 4000)
+    cases += D.many_endpoint_cases(rng.fork('many'), 'many', res.tier == 'thorough')
     def judge(c, lines):
         return D.judge_ref(c, lines, check_pending=True)
     correspondence(res, cases, proj_pending, judge, 'pending reassembly state')
-    res.cov['rule'] = 'histories over 1-4 endpoints mixing complete chains, unsegmented frames, orphan segments, aborted chains, undecodable messages, header-only frames, TECMP frames and buffers shorter than 8 bytes; after every decode call the hook reports (pending count, buffered bytes); judge: count == open chains of the reference decoder, bytes <= 16 + received segment bytes per open chain. non-trivial = distinct frames >= 24 bytes'
+    res.cov['rule'] = 'histories over 1-4 endpoints mixing complete chains, unsegmented frames, orphan segments, aborted chains, undecodable messages, header-only frames, TECMP frames and buffers shorter than 8 bytes; after every decode call the hook reports (pending count, buffered bytes); chains with totals around the 16-bit limits and colliding-looking endpoint pairs as in C05; judge: count == open chains of the reference decoder, bytes <= 16 + received segment bytes per open chain. non-trivial = distinct frames >= 24 bytes'
     res.cov['distinct_nontrivial'] = nontrivial_frames(cases)
     res.cov['input_distribution'] = frame_stats(cases)
     res.cov['samples'] = [sample_case(c) for c in cases[:2]]
@@ -114,8 +124,10 @@ def run_c17(res, rng):
 def run_c18(res, rng):
     n = 1000 if res.tier == 'quick' else 50000
     cases = corpus_cases('C18') + [D.gen_c18(rng.fork('i%d' % i), 'i%d' % i) for i in range(n)]
+    cases += [D.with_projections(c) for c in D.alias_cases(rng.fork('alias'), 'alias', 150 if res.tier == 'quick' else 6000)]
+    cases += [D.with_projections(c) for c in D.many_endpoint_cases(rng.fork('many'), 'many', False)[:3]]
     correspondence(res, cases, proj_nk, D.judge_c18, 'endpoint isolation')
-    res.cov['rule'] = 'histories as in C17 over 2-4 endpoints (incl. same device/other stream); the same decoder run is repeated per endpoint on the projection of the history to that endpoint\'s frames (fresh decoder each); judge: packets delivered for e in the interleaved run == packets of the projected run, on the implementation. non-trivial = distinct frames >= 24 bytes'
+    res.cov['rule'] = 'histories as in C17 over 2-4 endpoints (incl. same device/other stream) plus endpoint pairs that collide under xor/or/add/truncation foldings of (device, stream); the same decoder run is repeated per endpoint on the projection of the history to that endpoint\'s frames (fresh decoder each); judge: packets delivered for e in the interleaved run == packets of the projected run, on the implementation. non-trivial = distinct frames >= 24 bytes'
     res.cov['distinct_nontrivial'] = nontrivial_frames(cases)
     res.cov['input_distribution'] = frame_stats(cases)
     res.cov['samples'] = [sample_case(c) for c in cases[:2]]
